@@ -79,6 +79,9 @@ class C03(Prop):
             add(src, "templates")
         for _ in range(n // 10):
             add(self.gen_script(rng, True), "sqrt")
+        # the switch itself is a variable scripts can read (known finding D23)
+        for src in ["return OPTIMIZE;", "if (OPTIMIZE) { return 1; } return 2;", "x = OPTIMIZE; return [x, 1];", "return type(OPTIMIZE);"]:
+            add(src, "optimize-visible", objs=["N"])
         # dense constant arithmetic: nested trees over integer literals whose intermediate results leave the
         # inline range (negative, > 65534), are zero (division), or fold in several steps
         def cexpr(d):
@@ -126,6 +129,8 @@ class C03(Prop):
         return out
 
     def in_class(self, klass, case):
+        if klass == "optimize-visible":
+            return "OPTIMIZE" in vlib.unhxs(case.fields.get("script", ""))
         if klass == "sqrt-fold":
             # the optimizer actually removed a square-root instruction from this script
             return "sqrt-fold" in case.tags and "√" in vlib.unhxs(case.fields.get("script", ""))
